@@ -96,15 +96,27 @@ class YAMLPath:
         if not isinstance(other, (YAMLPath, str)):
             return False
 
-        equiv_this = YAMLPath(self)
-        equiv_this.separator = PathSeparators.FSLASH
-        cmp_this = str(equiv_this)
+        return (YAMLPath._segment_identities(YAMLPath(self))
+                == YAMLPath._segment_identities(YAMLPath(other)))
 
-        equiv_that = YAMLPath(other)
-        equiv_that.separator = PathSeparators.FSLASH
-        cmp_that = str(equiv_that)
-
-        return cmp_this == cmp_that
+    @staticmethod
+    def _segment_identities(path: "YAMLPath") -> List[tuple]:
+        """Reduce the parsed segments of a YAML Path to comparable tuples."""
+        identities: List[tuple] = []
+        for (segment_type, segment_attrs) in path.escaped:
+            if isinstance(segment_attrs, SearchTerms):
+                identities.append((
+                    segment_type, segment_attrs.inverted,
+                    segment_attrs.method, segment_attrs.attribute,
+                    segment_attrs.term))
+            elif isinstance(
+                segment_attrs, (SearchKeywordTerms, CollectorTerms)
+            ):
+                identities.append((
+                    segment_type, type(segment_attrs), str(segment_attrs)))
+            else:
+                identities.append((segment_type, segment_attrs))
+        return identities
 
     def __ne__(self, other: object) -> bool:
         """Indicate non-equivalence of two YAMLPaths."""
